@@ -2,14 +2,14 @@ package hc
 
 import "embed"
 
-//go:embed hc.go lex.go
+//go:embed hc.go lex.go conc.go
 var srcFS embed.FS
 
 // Sources returns the harness run-time sources that are copied into every
 // scratch batch module as package batch/hc.
 func Sources() map[string]string {
 	out := map[string]string{}
-	for _, n := range []string{"hc.go", "lex.go"} {
+	for _, n := range []string{"hc.go", "lex.go", "conc.go"} {
 		b, err := srcFS.ReadFile(n)
 		if err != nil {
 			panic(err)
